@@ -301,6 +301,21 @@ pub fn initial<S: Sut>(uni: &Universe, key_opts: KeyOpts) -> St<S> {
     }
 }
 
+/// a library call that panics falsifies C20 and, because it does not return the model's answer,
+/// also the property under check
+fn panic_props(cfg: &Config) -> Vec<&'static str> {
+    const ALL: [&str; 20] = ["C01", "C02", "C03", "C04", "C05", "C06", "C07", "C08", "C09", "C10", "C11", "C12", "C13", "C14", "C15", "C16", "C17", "C18", "C19", "C20"];
+    let mut v: Vec<&'static str> = vec!["C20"];
+    for p in &cfg.stop_props {
+        if let Some(s) = ALL.iter().find(|a| **a == p.as_str()) {
+            if *s != "C20" {
+                v.push(s);
+            }
+        }
+    }
+    v
+}
+
 fn is_known(cfg: &Config, v: &Viol) -> bool {
     cfg.known.iter().any(|(p, s, c)| p == v.prop && *s == v.site && *c == v.cond)
 }
@@ -336,7 +351,11 @@ fn expand<S: Sut>(
                     }
                 }
             }
-            Err(msg) => part.record(Viol::new("C20", at.clone(), "panic", msg), st, None, &at),
+            Err(msg) => {
+                for p in panic_props(cfg) {
+                    part.record(Viol::new(p, at.clone(), "panic", msg.clone()), st, None, &at);
+                }
+            }
         }
     }
     // tainted states (after a structural / counter violation) are followed with the reduced alphabet only
@@ -361,7 +380,9 @@ fn expand<S: Sut>(
         match r {
             Err(msg) => {
                 // the map may be in an arbitrary state: do not expand it
-                part.record(Viol::new("C20", format!("{:?}", op.kind), "panic", format!("{} panicked: {msg}", op.describe(uni))), st, Some(op), "transition");
+                for p in panic_props(cfg) {
+                    part.record(Viol::new(p, format!("{:?}", op.kind), "panic", format!("{} panicked: {msg}", op.describe(uni))), st, Some(op), "transition");
+                }
                 part.pruned += 1;
             }
             Ok((vs, wk)) => {
